@@ -512,6 +512,12 @@ def rule_to_python_siblings(em, rep, rid):
                         if elt is not None and isinstance(elt, ast.Call) and is_name(elt.func) and elt.func.id in ('to_python', 'get_value'):
                             ok = True
                         break
+                    if isinstance(p, ast.For) and p.iter is child and isinstance(p.target, ast.Name):
+                        # for a in self._args: ... to_python(a) ...   (the element is only ever converted)
+                        uses = [u for b in p.body for u in ast.walk(b) if is_name(u, p.target.id) and isinstance(u.ctx, ast.Load)]
+                        ok = bool(uses) and all(isinstance(getattr(u, '_parent', None), ast.Call) and is_name(u._parent.func) and
+                                                u._parent.func.id in ('to_python', 'get_value') for u in uses)
+                        break
                     if isinstance(p, ast.stmt):
                         break
                     child = p
@@ -637,10 +643,23 @@ class Freshness:
                 return True, '', False
             al = False
             for s in defs:
-                ok, why, a = self.fresh(f, cfg, at, s.value, depth + 1)
+                # each definition is judged under the tests that dominate *it* (single-exit style: result = ... per branch)
+                ns = em.nodes_for(f, s) if cfg is not None else []
+                ok, why, a = self.fresh(f, cfg, ns[0] if ns else at, s.value, depth + 1)
                 if not ok:
                     return False, 'local %s = %s: %s' % (e.id, norm(s.value), why), False
                 al = al or a
+            # a list that is filled element by element
+            for c in own_nodes(f.node):
+                if isinstance(c, ast.Call) and isinstance(c.func, ast.Attribute) and is_name(c.func.value, e.id) and c.args and \
+                        c.func.attr in ('append', 'insert', 'extend'):
+                    ns = em.nodes_for(f, c) if cfg is not None else []
+                    ok, why, a = self.fresh(f, cfg, ns[0] if ns else at, c.args[-1], depth + 1)
+                    if not ok:
+                        return False, '%s: %s' % (norm(c), why), False
+                    al = al or a
+                elif isinstance(c, ast.AugAssign) and is_name(c.target, e.id):
+                    return False, 'local %s is updated in place (%s)' % (e.id, norm(c)), False
             return True, '', al
         if isinstance(e, ast.Attribute):
             if _excludes_compound(tests, norm(e)):
@@ -696,10 +715,17 @@ def rule_store_snapshot(em, rep, rid, fr=None):
 
 def _one_memo(f, e):
     """the copier calls inside e share one memo created outside the comprehension"""
-    for x in ast.walk(e):
+    exprs = [e]
+    if isinstance(e, ast.Name):
+        for c in own_nodes(f.node):
+            if isinstance(c, ast.Assign) and any(is_name(t, e.id) for t in c.targets):
+                exprs.append(c.value)
+            if isinstance(c, ast.Call) and isinstance(c.func, ast.Attribute) and is_name(c.func.value, e.id) and c.args:
+                exprs.append(c)
+    for x in [y for ex in exprs for y in ast.walk(ex)]:
         if isinstance(x, ast.Call) and len(x.args) >= 2 and isinstance(x.args[1], (ast.Dict, ast.Call)):
             if isinstance(getattr(x, '_parent', None), (ast.ListComp, ast.GeneratorExp)) or any(
-                    isinstance(p, (ast.ListComp, ast.GeneratorExp)) for p in parents(x)):
+                    isinstance(p, (ast.ListComp, ast.GeneratorExp, ast.For, ast.While)) for p in parents(x)):
                 return False, 'each argument of the fact is copied with its own variable map: a variable that occurs twice ' \
                               '(p(X, X)) is stored as two different variables'
     return True, ''
@@ -779,10 +805,15 @@ def _const_str(em, f, e):
     """constant string an expression evaluates to, following self.X fields bound once in __init__"""
     if isinstance(e, ast.Constant) and isinstance(e.value, str):
         return e.value
+    if isinstance(e, ast.Name):
+        r = em.repo.resolve_name(f, e.id)
+        if r and r[0] == 'var' and isinstance(r[2], ast.Constant) and isinstance(r[2].value, str) and \
+                len(r[1].assign_nodes.get(e.id, [])) == 1:
+            return r[2].value
     if is_self_attr(e):
         vals = init_field_values(em, em.YP).get(e.attr, [])
-        if len(vals) >= 1 and isinstance(vals[0][1].value, ast.Constant):
-            return vals[0][1].value.value
+        if len(vals) >= 1:
+            return _const_str(em, vals[0][0], vals[0][1].value)
     return None
 
 
@@ -810,8 +841,8 @@ def rule_constant_agreement(em, rep, rid):
     ftp = functor.methods.get('to_python')
     cell = None
     for x in own_nodes(ftp.node):
-        if isinstance(x, ast.Compare) and '_name' in norm(x.left) and isinstance(x.comparators[0], ast.Constant):
-            cell = x.comparators[0].value
+        if isinstance(x, ast.Compare) and '_name' in norm(x.left) and _const_str(em, ftp, x.comparators[0]) is not None:
+            cell = _const_str(em, ftp, x.comparators[0])
     if dot is None or cell is None:
         raise AnalysisError('cannot determine the list-cell functor name (listpair: %r, to_python: %r)' % (dot, cell))
     if dot == cell:
@@ -830,9 +861,9 @@ def rule_constant_agreement(em, rep, rid):
     atp = atom.methods.get('to_python')
     nil2 = None
     for x in own_nodes(atp.node):
-        if isinstance(x, ast.If) and isinstance(x.test, ast.Compare) and '_name' in norm(x.test.left) and isinstance(x.test.comparators[0], ast.Constant):
+        if isinstance(x, ast.If) and isinstance(x.test, ast.Compare) and '_name' in norm(x.test.left) and _const_str(em, atp, x.test.comparators[0]) is not None:
             if any(isinstance(r, ast.Return) and isinstance(r.value, ast.List) and not r.value.elts for r in x.body):
-                nil2 = x.test.comparators[0].value
+                nil2 = _const_str(em, atp, x.test.comparators[0])
     if nil is None or nil2 is None:
         raise AnalysisError('cannot determine the empty-list atom name (engine: %r, to_python: %r)' % (nil, nil2))
     if nil == nil2:
